@@ -210,6 +210,17 @@ def run(chk: Check):
                 smp = ch.make_builtin(name, bs, opts, rng.randrange(10 ** 6))
                 reused[name] = smp
             pts, losses = gen_history(rng, sp, rng.randint(max(bs, 4), 14), top=edge)
+            if tiny:
+                # a nearly exhausted space: the history holds every point of the grid except u of them, 0 <= u <= batch size (fewer points left than one batch
+                # asks for, exactly as many, or none): the batch still has batch_size rows
+                import itertools
+                allp = [list(t) for t in itertools.product(*[g.tolist() for g in grid_ref])]
+                rng.shuffle(allp)
+                u = rng.randint(0, min(bs, len(allp) - 1))
+                keep = allp[u:]
+                pts = np.array(keep + [list(rng.choice(keep)) for _ in range(max(rng.randint(0, 2), bs - len(keep)))], dtype=float)   # (best-batch needs >= batch_size rows)
+                losses = np.array([rng.random() * 3 for _ in range(len(pts))])
+                chk.count(f"tiny_space:points_left_unexplored={'0' if u == 0 else '<batch' if u < bs else '=batch'}")
             if int_hist:
                 # an on-grid history whose values are whole numbers, held in an integer-dtype array (a hand-made initial design)
                 whole = [np.array([v for v in g.tolist() if float(v).is_integer()]) for g in sp.param_grid]
